@@ -414,3 +414,24 @@ def working_for(prog, f, _seen=None):
             if h not in out:
                 out.append(h)
     return out
+
+
+def own_event(ev, fn_qual):
+    """Is the event part of the function's own body - written in it or in a private helper it was split into (inlined)?
+    Events of other public methods it calls (flatten, a child's update, ...) are not."""
+    ch = tuple(ev.chain)
+    if not ch or ch[0] != fn_qual:
+        return False
+    for q in ch[1:]:
+        name = q.split(".")[-1]
+        if not _is_private(name):
+            return False
+    return True
+
+
+def over_all_children(it, owner):
+    """Does iterable value `it` range over every child of `owner` (the list shortcut or any iteration of the children dict's values)?"""
+    c = canon(it)
+    if c == canon(("fld", owner, "_childrenv", 0)):
+        return True
+    return c == ("dictiter", canon(("fld", owner, "children", 0)))
